@@ -399,7 +399,7 @@ def train_loop_worker(job):
     def get_batches(images, batch_size, key=None, devices=None):
         log["epochs"] += 1
         if log["epochs"] > len(hist):
-            raise Unsupported("the stubbed loss history is exhausted: training ran longer than %d epochs" % len(hist))
+            raise _HistoryExhausted()
         return [["xb0", "xb1"], ["yb0", "yb1"]]
 
     def train_step(map_and_loss, model, optim, opt_state, x, y, aux=None):
@@ -433,14 +433,17 @@ def train_loop_worker(job):
         else:
             cond = ml.ValLoss(param[0], param[1], 0)
         vx, vy = ("VX", "VY") if kind == "ValLoss" or param == "with-validation" else (None, None)
-        res = attempt(lambda: ml.train("X", "Y", "map_and_loss", "model@0", Key(0), cond, 2, Optim(), vx, vy))
+        try:
+            res = attempt(lambda: ml.train("X", "Y", "map_and_loss", "model@0", Key(0), cond, 2, Optim(), vx, vy))
+        except _HistoryExhausted:
+            res = _HistoryExhausted
     finally:
         for k, v in saved.items():
             if v is None:
                 ns.pop(k, None)
             else:
                 ns[k] = v
-    if isinstance(res, Rejected):
+    if isinstance(res, Rejected) and res is not _HistoryExhausted:
         problems.append(("train-rejected", "train raised: %s" % res.exc, cfg))
         return dict(cfg=cfg, problems=problems)
     # reference: the statement's state machine over the fed history
@@ -464,12 +467,19 @@ def train_loop_worker(job):
         if exp_epochs is None:
             return dict(cfg=cfg, problems=[("history", "the fed history does not make the reference stop (box error)", cfg)])
         exp_model = model_after(best_e)
+    if res is _HistoryExhausted:
+        problems.append(("train-epochs", "train is still running after %d epochs with %s(%s) on the loss history %s; the statement stops it after epoch %d" % (len(hist), kind, param, [str(x) for x in (train_hist if kind != "ValLoss" else val_hist)], exp_epochs), cfg))
+        return dict(cfg=cfg, problems=problems)
     got_model = res[0] if isinstance(res, tuple) else res
     if log["epochs"] != exp_epochs:
         problems.append(("train-epochs", "train ran %d epoch(s) with %s(%s) on the loss history %s; the statement gives %d" % (log["epochs"], kind, param, [str(x) for x in (train_hist if kind != "ValLoss" else val_hist)], exp_epochs), cfg))
     elif got_model != exp_model:
         problems.append(("train-model", "train handed back %r with %s(%s); the statement gives %r" % (got_model, kind, param, exp_model), cfg))
     return dict(cfg=cfg, problems=problems)
+
+
+class _HistoryExhausted(Exception):
+    """The stubbed training loop asked for more epochs than the fed loss history holds."""
 
 
 def check_siblings(ctx):
